@@ -520,3 +520,4 @@ mut('derivx-twin-bce-logits-sigmoid-form', ['C02'], 'BCE-with-logits backward: q
 mut('c01-max-mark-through-ravel', ['C01'], 'max_backward (axis=None) marks the arg-max through mask.ravel(), a copy for non-contiguous operands', [(K, "        unr_indices = np.unravel_index(max_indices, a.shape)\n        mask[unr_indices] = 1\n    else:\n        np.put_along_axis(mask, max_indices, 1, axis=axis)", "        mask.ravel()[max_indices] = 1\n    else:\n        np.put_along_axis(mask, max_indices, 1, axis=axis)")], rules=['C01.VIEWSTORE'])
 mut('c13-bn1d-super-args-swapped', ['C13', 'C12', 'C06'], 'BatchNorm1d forwards affine / track_running_stats to the base class in swapped positions', [(LY, "        super().__init__(num_features, eps, momentum, affine, track_running_stats, dtype)", "        super().__init__(num_features, eps, momentum, track_running_stats, affine, dtype)")], rules=['C13.SUPER-ROLES', 'C12.SUPER-ROLES', 'C06.SUPER-ROLES'], count=2)
 mut('c08-sgd-nesterov-inplace-on-grad', ['C08'], 'SGD applies the Nesterov correction in place on a name that may still be the parameter gradient buffer', [(O, "                        grad = grad + self.momentum*self.momentum_buffer[i]", "                        grad += self.momentum*self.momentum_buffer[i]")], rules=['C08.GRAD-CONST'])
+mut('c14-tensor-bool-value-dependent', ['C14', 'C02'], 'Tensor gains a value-dependent __bool__ while linear / conv test `if bias:`', [(T, "    def __len__(self) -> int:", "    def __bool__(self) -> bool:\n        return bool(self.data.any())\n\n    def __len__(self) -> int:")], rules=['C14.PRESENCE', 'C02.PRESENCE'])
